@@ -143,7 +143,7 @@ PROPS = {
     "C05": {
         "panic_is_violation": True,
         "proved": 'refinement theorems for EVERY accessor on the README layout of any good document (unbounded, any nesting): array_length, get_by_index (all indices), get_by_name (exact first, then first ignore-case match in key order), get_by_keypath (negative indices, i = len, past scalars), object_keys, object_each, array_values, type_of, as_null/bool/number/str, is_array/object, exists_all/any_keys, traverse_check_string (hit iff some string or key satisfies the test); every sub-value handed back is the canonical encoding of a good value',
-        "missing": 'to_bool/to_i64/to_u64/to_f64/to_str (string-sourced casts rest on the modelled str::parse, validated by the strf64/toi64/tou64 ops)',
+        "missing": 'casts are proved against tree-level specifications (C05_to_bool / to_i64 / to_u64 / to_f64 / to_str, as_i64 / as_u64 / as_f64, is_*; views exact or absent); what remains external is Rust str::parse itself (modelled as Fn.parseI64 / parseU64 / parseF64, validated by the strf64 / toi64 / tou64 requests)',
         "assumptions": ['documents are canonical encodings of good values (field widths, valid UTF-8, sorted unique keys)'],
     },
     "C06": {
@@ -191,7 +191,7 @@ PROPS = {
     "C08": {
         "panic_is_violation": True,
         "proved": 'REFINEMENT of the byte-level selector (find_positions frontier, select_* walkers, filter dispatch, value collection, comparison, writers) against the tree-level denotation evalPaths, for every good document and every path: all mode appends exactly the canonical encodings of the denoted items in document order with their end offsets (sound at every fuel; complete; no panic; error iff the path denotes nothing); first / array / mixed / predicate modes; path_exists / path_match exact; EVERY AST parse_json_path accepts is covered (C08_parser_builds_supported, C08_parser_wellformed); the fuel the functions run with is adequate (C08_fuel_adequate, quantitative termination) and END TO END for every accepted text and good document (C08_end_to_end); frame property of the writers; exact in-range index arithmetic',
-        "missing": "first / array / mixed modes have the soundness direction against the denotation (their mutual consistency is exact: C15_modes_consistent); cross-kind comparisons follow the code's derived order (not judged by the property)",
+        "missing": "nothing known for the four modes (first / array / mixed are exact too: C08_select_first_exact / array_exact / mixed_exact, no panic in any mode); cross-kind comparisons follow the code's derived order (not judged by the property)",
         "assumptions": ['documents are canonical encodings of good values; array/mixed: document below 2^28 bytes and fewer than 2^29 items'],
     },
     "C09": {
